@@ -4,7 +4,7 @@ CONSTANTS
     Depth = 0
     MaxCalls = 2
     Calls <- McCalls
-    Probes <- TreeCalls
+    Probes <- HistCalls
     Segs <- McSegs
     Holds = {"now", "session"}
     Fixed = TRUE
